@@ -762,11 +762,11 @@ Proof.
     destruct (insert_or_dealloc_spec _ _ _ _ H) as [(_ & L5 & T5 & Li5)|(st & _ & S5 & L5)].
     + eapply inv_intro; [exact Li5|exact T5| |].
       * rewrite sumb_app, Li4, T4, (sumb_remove _ _ _ EG).
-        change (stream_blocks (set_rdb _ _)) with (stream_blocks n). lia.
+        change (stream_blocks (set_pending _ _)) with (stream_blocks n). lia.
       * rewrite T4. exact W.
     + eapply inv_intro; [reflexivity|reflexivity| |].
       * rewrite S5, Li4, T4, (sumb_remove _ _ _ EG).
-        change (stream_blocks (set_rdb _ _)) with (stream_blocks n) in L5. lia.
+        change (stream_blocks (set_pending _ _)) with (stream_blocks n) in L5. lia.
       * rewrite S5, T4. exact W.
   - (* the removal cannot fail: the stream was found and build_stream keeps the session *)
     pose proof (stream_remove_spec _ _ _ _ H) as R. rewrite S, EG in R.
@@ -1030,7 +1030,7 @@ Proof.
       destruct (IH _ _ _ _ H) as (st & nl' & -> & T4 & Q4).
       exists st, nl'. split; [reflexivity|]. split; [congruence|].
       rewrite Q4. unfold side. cbn [fst]. rewrite S3, S2, Li1, EL, sumb_app.
-      change (stream_blocks (set_rdb _ _)) with (stream_blocks ns).
+      change (stream_blocks (set_pending _ _)) with (stream_blocks ns).
       unfold sumb at 3. cbn [fold_right]. fold (sumb rest). lia.
     + change (st_alloc_fail =? st_ok) with false in H. cbv iota in H.
       binv H u4 w4 H4.
